@@ -622,6 +622,30 @@ func permOf(rng *rand.Rand, n int, k int) []int {
 
 // configurations of one case: `runs` library configurations (alternating memory / disk, walking
 // through workers x chunk counts x permutations) or one binary / law configuration.
+var c06AllPerms = false // --opt allperms=1: one configuration per permutation of the input (n <= 4: at most 24)
+
+func allPerms(n int) [][]int {
+	var out [][]int
+	p := make([]int, n)
+	for i := range p {
+		p[i] = i
+	}
+	var rec func(k int)
+	rec = func(k int) {
+		if k == n {
+			out = append(out, append([]int(nil), p...))
+			return
+		}
+		for i := k; i < n; i++ {
+			p[k], p[i] = p[i], p[k]
+			rec(k + 1)
+			p[k], p[i] = p[i], p[k]
+		}
+	}
+	rec(0)
+	return out
+}
+
 var c06OnlyMode = "" // --opt mode=mem|disk restricts the configurations (profiling)
 var c06DiskEvery = 2 // library level: one configuration out of c06DiskEvery uses the on-disk mode (about 15 x dearer)
 
@@ -633,9 +657,18 @@ func configsFor(c *c06Case, level string, runs int, seed int64) []*c06Cfg {
 	n := len(c.In)
 	out := []*c06Cfg{}
 	base := rng.Intn(1 << 20)
+	var perms [][]int
+	if c06AllPerms && n <= 5 {
+		perms = allPerms(n)
+		runs = len(perms)
+	}
 	for k := 0; k < runs; k++ {
 		x := base + k
-		cfg := &c06Cfg{Level: level, Perm: permOf(rng, n, (x/2)%4), Workers: c06Workers[(x/2)%3], Chunks: c06Chunks[(x/6)%3],
+		perm := permOf(rng, n, (x/2)%4)
+		if perms != nil {
+			perm = perms[k]
+		}
+		cfg := &c06Cfg{Level: level, Perm: perm, Workers: c06Workers[(x/2)%3], Chunks: c06Chunks[(x/6)%3],
 			MapType: x % 3, Explicit1: (x/3)%2 == 0, Variant: (x / 4) % 6}
 		if x%2 == 0 {
 			cfg.Mode = "mem"
@@ -901,6 +934,7 @@ func replayC06Child(env *Env) {
 	level := env.opt("level", "lib")
 	c06OnlyMode = env.opt("mode", "")
 	c06DiskEvery = env.optInt("diskevery", 2)
+	c06AllPerms = env.opt("allperms", "") != ""
 	runs := env.optInt("runs", 4)
 	par := env.optInt("par", 4)
 	repeat := env.optInt("repeat", 1)
